@@ -83,6 +83,34 @@ def sink_decode_for(params):
     return dec
 
 
+def sink_tok2rec(t):
+    c = t[0]
+    r = dict(a=c, s=0, id=0, k="")
+    if c == "s":
+        s, _kind, cid = t[1:].split(":")
+        r.update(s=int(s), id=int(cid))
+    elif c in ("p", "d", "r", "x", "w"):
+        r.update(s=int(t[1:]))
+    elif c == "b":
+        a, i = t[1:].split(":")
+        r.update(k=a, id=int(i))
+    return r
+
+
+def sink_project(e):
+    if e["k"] == "CONNACK":      # the limits a v5 CONNACK announces are C19's business
+        return dict(e=e["e"], k=e["k"], s=0, id=0, q=0)
+    return dict(e=e["e"], k=e["k"], s=e["s"], id=e["id"], q=e["q"])
+
+
+
+
+SINK_CONFORM = dict(module="SinkConform", tok2rec=sink_tok2rec, tail=1, project=sink_project,
+                    cmp=("out", "send_poll", "send_done"), variants=("server", "client"),
+                    # the v3 client's close() writes DISCONNECT before it closes the io; Sink.tla has no role
+                    drop=lambda e, r: e["e"] == "out" and e["k"] == "DISCONNECT" and r["cfg"]["ver"] == 3)
+
+
 def sink_configs(tier):
     T, F = "TRUE", "FALSE"
     cs = []
@@ -111,7 +139,9 @@ def sink_configs(tier):
             ]
         for name, params, roles in base:
             params.setdefault("prehs", F)
-            cs.append((name, SINK_CFG.format(**params), "MC_Sink", sink_decode_for(params), roles))
+            # (event-level conformance is skipped where the packet id counter wraps: the model wraps at IdMax = 2,
+            #  the real counter at 65535, so the ids differ by construction)
+            cs.append((name + ("_noconf" if params["uses"] > 1 else ""), SINK_CFG.format(**params), "MC_Sink", sink_decode_for(params), roles))
     return cs
 
 
@@ -174,6 +204,7 @@ def sink_signature(v):
 
 reg(dict(
     name="sink", judge="SinkJudge", configs=sink_configs, extra_runs=sink_random, signature=sink_signature,
+    conform=SINK_CONFORM,
     level={}, quota=350,
     rule="every transition of the bounded TLC state graph of Sink.tla is a replay candidate (prefix = shortest "
          "path); quick replays a seeded sample per configuration, thorough replays all; plus random long runs "
